@@ -60,18 +60,26 @@ def main():
         sh("git checkout -- . ; git clean -fdq -- slice-codec/tests slicec/tests", cwd=wt)
         ran["confirmed"] = bool(failed == 0 and passed > 400 and rc1 != 0 and rc2 == 0)
         print(f"[{prop}-{name}] confirm: suite {passed} passed / {failed} failed; demo with change rc={rc1}, without rc={rc2} -> confirmed={ran['confirmed']}", flush=True)
-    # run the check against /repo with the change applied
-    rc, o = sh("git status --porcelain", cwd="/repo")
-    assert o.strip() == "", "/repo not clean: " + o
-    rc, o = sh(f"git apply {patch}", cwd="/repo")
+    # run the check against /repo with the change applied (or, with --via-worktree, against the scratch worktree with the
+    # change applied there: same runner, VERIF_REPO points at the worktree; used while /repo must stay untouched)
+    via_wt = "--via-worktree" in sys.argv
+    target = wt if via_wt else "/repo"
+    if via_wt:
+        sh("git checkout -- .", cwd=wt)
+    rc, o = sh("git status --porcelain --untracked-files=no", cwd=target)
+    assert o.strip() == "", target + " not clean: " + o
+    rc, o = sh(f"git apply {patch}", cwd=target)
     assert rc == 0, o
     t0 = time.time()
     try:
         cmd = f"python3 vf.py check {prop} --tier {tier} " + " ".join(f"--only {h}" for h in only)
         # evidence of a run against a seeded tree must not replace the evidence of the unchanged tree
-        rc, o = sh(cmd, cwd=V, timeout=7200, env=dict(os.environ, VERIF_EVIDENCE=os.environ.get("VERIF_EVIDENCE", "/var/tmp/slicec-verif-seed-evidence")))
+        cenv = dict(os.environ, VERIF_EVIDENCE=os.environ.get("VERIF_EVIDENCE", "/var/tmp/slicec-verif-seed-evidence"))
+        if via_wt:
+            cenv["VERIF_REPO"] = wt
+        rc, o = sh(cmd, cwd=V, timeout=7200, env=cenv)
     finally:
-        sh("git checkout -- .", cwd="/repo")
+        sh("git checkout -- .", cwd=target)
     viol = [l for l in o.split("\n") if l.startswith("VIOLATION") or l.startswith("  failing check") or l.startswith("INCONCLUSIVE")]
     ran["check"] = dict(cmd=cmd, exit=rc, wall_s=round(time.time() - t0), lines=viol[:12], detected=(rc == 1))
     print(f"[{prop}-{name}] check exit={rc} detected={rc == 1}", flush=True)
